@@ -114,9 +114,7 @@ def replay_m2(res: Result, tier: str):
     bind_repo()
     from geophires_x.Economics import CalculateFinancialPerformance, CalculateRevenue, calculate_npv
 
-    n = bad = 0
-    for cy, L, cc, co, rev in m2_vectors(tier):
-        n += 1
+    def one(cy, L, cc, co, rev):
         N = cy + L
         # spec side (exact)
         cf = [Fraction(-cc, cy)] * cy + [Fraction(r - co) for r in rev]
@@ -157,6 +155,15 @@ def replay_m2(res: Result, tier: str):
                             if abs(sum(terms)) > Fraction(1, 10 ** 6) * sum(abs(t) for t in terms):
                                 ok = False
                                 detail[f'irr r={rate_pct}'] = [irr, float(sum(terms))]
+        return ok, detail
+
+    n = bad = 0
+    for cy, L, cc, co, rev in m2_vectors(tier):
+        n += 1
+        try:
+            ok, detail = one(cy, L, cc, co, rev)
+        except Exception as ex:  # noqa: BLE001  (raised inside the functions under test)
+            ok, detail = False, {'raised': f'{type(ex).__name__}: {ex}'}
         if not ok:
             bad += 1
             if bad <= 30:
